@@ -37,6 +37,9 @@ def base_configs(tier):
              probe_dtype='uint8', om_hi=400),
         dict(base, nc=4, sym=['channels'], label='', factor=1.0, wm='I', merged=[1, 2, 1],
              optional={'pc_features': 'no'}),
+        # two probes side by side (1 um apart): the other probe's channels are nearer than the own probe's (round 8)
+        dict(base, nc=4, sym=['templates'], label='', factor=1.0, wm='I', merged=[2, 2], probe_dx=1.0,
+             optional={'pc_features': 'no', 'template_features': 'no'}),
         dict(base, sym=['spikes'], label='', factor=1.0, wm='I', raw=True, ncd=4, optional={'raw': 'yes'},
              extras=['temp_wh.dat', 'cluster_KSLabel.tsv']),
         dict(base, sym=['spikes'], label='', factor=0.5, wm='diag', first_factor=2.0, optional={'pc_features': 'no'}),
